@@ -256,10 +256,10 @@ prop('C19', units=['clients', 'add', 'sub', 'mul', 'derived', 'prim_add', 'prim_
      level_note=_NOTE_COMMON + ' The equality routine used by is_one / == is proved in the cmp unit (C02), which the run of this property includes.',
      technique=_TECH + '; modular composition plus client programs verified against callee contracts only')
 
-prop('C20', units=['config', 'context', 'round', 'div', 'fmt'], level='proof',
+prop('C20', units=['config', 'context', 'round', 'div', 'fmt', 'roots', 'inverse'], level='proof',
      level_text=('The build-time constants are replaced by uninterpreted symbols (rewrite R9: the include!(OUT_DIR/...) items must be present), so every '
                  'proof holds for all configurations at once: Context::default() == (cfg precision, cfg mode), RoundingMode::default() == cfg mode, '
-                 'round(n) == with_scale_round(n, cfg mode), the four Div impls pass cfg precision to impl_division; the integer zero padding of the formatter gives up exactly '
+                 'round(n) == with_scale_round(n, cfg mode), the four Div impls pass cfg precision to impl_division; sqrt() / cbrt() / inverse() are their _with_context forms at Context::default(); the integer zero padding of the formatter gives up exactly '
                  'beyond cfg max integer padding (counting the requested fraction zeros and the point); a consumer hard-coding 100 or HalfEven or 1000 '
                  'cannot be proved equal to an arbitrary symbol'),
      level_note=_NOTE_COMMON + ' build.rs itself (a separate program that formats env strings) is assumed to emit what it parsed; exp is excluded (C13); sqrt/cbrt/inverse/Display default-context forms are added as their units are built.',
